@@ -215,10 +215,10 @@ pub fn decode_c04(data: &[u8]) -> Vec<c04::Op> {
             }
             6 | 7 => Op::Pop,
             8 | 9 => Op::TryPop,
-            10..=13 => Op::Rotate(1 + byte(&mut u) % 5),
+            10..=13 => Op::Rotate(byte(&mut u) % 6),
             14 => Op::EditPush(ind(&mut u)),
             15 => [Op::EditRemoveFirst, Op::EditReverse, Op::EditRetag((byte(&mut u) % 40) as u16)][(b / 20) as usize % 3].clone(),
-            16 => if b >= 128 { Op::Nest(byte(&mut u) % 3) } else { Op::CompRotate(1 + byte(&mut u) % 6) },
+            16 => if b >= 128 { Op::Nest(byte(&mut u) % 3) } else { Op::CompRotate(byte(&mut u) % 7) },
             17 => [Op::CompClear, Op::CompDuplicate][(b / 20) as usize % 2].clone(),
             18 => Op::CompInterleave,
             20 => Op::ScopedEdit(byte(&mut u) % 3, byte(&mut u) % 3, ind(&mut u)),
@@ -284,8 +284,12 @@ pub fn decode_c13(data: &[u8]) -> c13::HelperCase {
         4 => {
             let f = |u: &mut U| (u.arbitrary::<i16>().unwrap_or(0) as f64) / 8.0;
             let p1: Vec<Fb> = (0..n).map(|_| Fb::of(f(&mut u))).collect();
-            let p2: Vec<Fb> = (0..n).map(|_| Fb::of(f(&mut u))).collect();
+            let mut p2: Vec<Fb> = (0..n).map(|_| Fb::of(f(&mut u))).collect();
             let alphas: Vec<Fb> = (0..n).map(|_| Fb::of(byte(&mut u) as f64 / 255.0)).collect();
+            // the last byte shortens the second parent by up to two genes (at least one stays)
+            let cut = (byte(&mut u) % 3) as usize;
+            let keep = p2.len().saturating_sub(cut).max(1).min(p2.len());
+            p2.truncate(keep);
             HelperCase::Arithmetic { p1, p2, alphas }
         }
         _ => {
